@@ -259,7 +259,11 @@ def handleK (op : String) (args res : List String) : Option Verdict :=
       -- the numerical-range defects of DDatanhee2 (open finding F81; the class is decided from the arguments): for e² < −3 with the
       -- series selected the sum cancels catastrophically and overflows; for 1 − e² < 1e-3 the scale factor overflows before convergence
       let e2 := f * (2 - f); let lo := if y < x then y else x
-      let inF81 := (e2 < -3 && lo > 0 && Float.abs (2 * Float.sqrt (Float.abs e2) / (1 - e2) * (1 - lo)) < 0.75) || (1 - e2 < 1e-3 && lo > 0)
+      let q2 := Float.abs (2 * Float.sqrt (Float.abs e2) / (1 - e2) * (1 - lo))
+      let sel2 := lo > 0 && q2 < 0.75 && !(Float.abs e2 < q2)
+      let l10 (v : Float) : Float := Float.log v / Float.log 10
+      let over := sel2 && e2 > 0 && (16 / (0 - l10 q2) + 2) * (if l10 (1 - e2) < l10 (1 - lo) then 0 - l10 (1 - e2) else 0 - l10 (1 - lo)) > 250
+      let inF81 := (e2 < -3 && sel2) || over
       if inF81 then checks "AlbersEqualArea::atanhxm1" [("atanhxm1", am, (atanhxm1 (⟨xm⟩ : FK 0)).v, (atanhxm1 (⟨xm⟩ : FK 1)).v, 0)] else
       checks "AlbersEqualArea::DDatanhee/atanhxm1" [("DDatanhee", dd, (DDatanhee (E 0) ⟨x⟩ ⟨y⟩).v, (DDatanhee (E 1) ⟨x⟩ ⟨y⟩).v, 0),
         ("atanhxm1", am, (atanhxm1 (⟨xm⟩ : FK 0)).v, (atanhxm1 (⟨xm⟩ : FK 1)).v, 0)]
